@@ -17,12 +17,13 @@ Definition tok_eqb (a b : tok) : bool :=
   match a, b with T r s e n, T r' s' e' n' => rule_eqb r r' && N.eqb s s' && N.eqb e e' && N.eqb n n' end.
 
 Inductive case :=
-| COp (file : N) (inp : str) (tree : option (list tok)) (ast : presult opdoc) (canon_same in_lang : bool)
-| CTs (file : N) (inp : str) (tree : option (list tok)) (ast : presult tsdoc) (canon_same in_lang : bool).
+| COp (file : N) (inp : str) (tree : option (list tok)) (ast : presult opdoc) (canon_same : bool) (expect : N)
+| CTs (file : N) (inp : str) (tree : option (list tok)) (ast : presult tsdoc) (canon_same : bool) (expect : N).
 (** [canon_same]: the position-erased AST equals that of the canonical rendering of the same token
     sequence (computed by the harness on the implementation's outputs; true when there is no partner).
-    [in_lang]: the harness built the text from the grammar of the specification, so it is a document of
-    the language and the property speaks about it. *)
+    [expect] = 1: the harness built the text from the grammar of the specification, so it is a document of
+    the language and the property speaks about it; 2: the text is known not to be in the language and must
+    be rejected (a syntax error, not a result and not a panic); 0: nothing is claimed. *)
 
 Definition tree_agrees (start : rule) (inp : str) (tree : option (list tok)) : bool :=
   match parse_pairs start inp, tree with
@@ -52,8 +53,12 @@ Definition agree (c : case) : bool :=
     specification gives them, and the result must not depend on ignored tokens *)
 Definition holds (c : case) : bool :=
   match c with
-  | COp file inp _ ast same in_lang =>
-      if in_lang then match ast with POk d => ck_opdoc inp file d && same | _ => false end else true
-  | CTs file inp _ ast same in_lang =>
-      if in_lang then match ast with POk d => ck_tsdoc inp file d && same | _ => false end else true
+  | COp file inp _ ast same expect =>
+      if N.eqb expect 1 then match ast with POk d => ck_opdoc inp file d && same | _ => false end
+      else if N.eqb expect 2 then match ast with PErr => true | _ => false end
+      else true
+  | CTs file inp _ ast same expect =>
+      if N.eqb expect 1 then match ast with POk d => ck_tsdoc inp file d && same | _ => false end
+      else if N.eqb expect 2 then match ast with PErr => true | _ => false end
+      else true
   end.
